@@ -269,6 +269,12 @@ def _validate(ctx, events):
 def run(ctx):
     q = ctx.quick()
     res, tcases = ctx.model_check("tiles/TilingGen.tla", "MC_Tiling_quick.cfg" if q else "MC_Tiling_thorough.cfg", emit=True, timeout=2400)
+    # unbounded in N and n (Apalache): the regular-tiling rule is an exact partition for every axis length and tile size
+    ctx.apalache("tiles/TilingInd.tla", init="IndInit", inv="IndInv", length=1, label="TilingInd inductive step (any N, n)")
+    ctx.apalache("tiles/TilingInd.tla", init="Init", inv="IndInv", length=0, label="TilingInd base case")
+    for prop in ("Abut", "NonEmpty", "SizeAgrees", "Complete") if not q else ("Abut", "Complete"):
+        ctx.apalache("tiles/TilingInd.tla", init="IndInit", inv=prop, length=0, label=f"TilingInd invariant implies {prop}")
+    ctx.apalache("tiles/TilingInd.tla", init="IndInit", inv="AllNominal", length=0, label="TilingInd AllNominal is refuted", expect_error=True)
     res, bcases = ctx.model_check("tiles/BlocksGen.tla", "MC_Blocks_quick.cfg" if q else "MC_Blocks_thorough.cfg", emit=True, timeout=2400)
     for cs in (tcases, bcases):
         for c in cs:
